@@ -4,6 +4,7 @@ import EaselModel.Alphabet.SqModel
 import EaselModel.Alphabet.GuessModel
 import EaselModel.Alphabet.TypeModel
 import EaselModel.Alphabet.Sq2Model
+import EaselModel.Alphabet.Model3
 /-! Line-protocol driver for the C08 model (same ops as harness/h_alphabet.c). -/
 open EaselModel EaselModel.Proto EaselModel.Alphabet
 
@@ -73,6 +74,10 @@ def roundI (r : Float32) : Int :=
   let d := r.toFloat
   if d < 0 then (d - 0.5).toInt64.toInt else (d + 0.5).toInt64.toInt
 
+instance : IntScore Float32 where
+  ofInt := Float32.ofInt
+  roundHalf := roundI
+
 def doDigitize (s : S) (a : Alphabet) (txt : List Nat) : S × String :=
   let (st, d) := a.digitize (cstr txt)
   ({ s with d := some d, L := d.length - 2 }, outDsq s!"st={st.name}" (some d))
@@ -100,12 +105,24 @@ def stepNoAbc (ws : List String) (op : String) : Option String :=
     some (if AbcType.validateType ((argInt? ws "t").getD 0) then "ok" else "fail")
   else none
 
+/-- `esl_msa_GuessAlphabet` needs no alphabet -/
+def stepMsa (ws : List String) (op : String) : Option String :=
+  if op == "msaguess" then
+    let rows := ((arg? ws "rows").getD "").splitOn ","
+    let rows := rows.map fun r => if r == "-" || r == "" then ([] : List Nat) else
+      ((bytesOfHex r).getD []).map (·.toNat)
+    if rows.any (fun r => r.length ≠ (rows.headD []).length || r.contains 0) then some "bad-op" else
+    match Guess.msaGuess (fun ct => (Guess.guessAlphabet ct).2) rows, Guess.msaGuess Guess.guessZ rows with
+    | some f, some z => some (if z != f then s!"model-split float={f.2} int={z.2}" else s!"{if f.1 then "ok" else "enoalphabet"} type={f.2}")
+    | _, _ => some "fault"
+  else none
+
 def step (s : S) (line : String) : S × String :=
   let ws := words line
   match ws with
   | [] => (s, "bad-op")
   | op :: _ =>
-  match stepNoAbc ws op with
+  match (stepNoAbc ws op).orElse (fun _ => stepMsa ws op) with
   | some r => (s, r)
   | none =>
   if op == "abc" then
@@ -235,13 +252,11 @@ def step (s : S) (line : String) : S × String :=
     match a.count (parseFList ((arg? ws "sc").getD "-")) ((argNat? ws "x").getD 0) wt with
     | some ct => (s, "ok " ++ ",".intercalate (ct.map fnum)) | none => (s, "fault")
   else if op == "iavg" then
-    let sc := (parseIList ((arg? ws "sc").getD "-")).map fun (i : Int) => (Float32.ofInt i)
-    match a.avgScore ((argNat? ws "x").getD 0) sc with
-    | some r => (s, s!"ok {if a.xIsResidue ((argNat? ws "x").getD 0) then roundI r else 0}") | none => (s, "fault")
+    match Alphabet.iAvgScore Float32 a ((argNat? ws "x").getD 0) (parseIList ((arg? ws "sc").getD "-")) with
+    | some r => (s, s!"ok {r}") | none => (s, "fault")
   else if op == "iexpect" then
-    let sc := (parseIList ((arg? ws "sc").getD "-")).map fun (i : Int) => (Float32.ofInt i)
-    match a.expectScore ((argNat? ws "x").getD 0) sc (parseFList ((arg? ws "p").getD "-")) with
-    | some r => (s, s!"ok {if a.xIsResidue ((argNat? ws "x").getD 0) then roundI r else 0}") | none => (s, "fault")
+    match Alphabet.iExpectScore a ((argNat? ws "x").getD 0) (parseIList ((arg? ws "sc").getD "-")) (parseFList ((arg? ws "p").getD "-")) with
+    | some r => (s, s!"ok {r}") | none => (s, "fault")
   else if op == "dscvec" then
     let sc := parseDList ((arg? ws "sc").getD "-")
     if sc.length ≠ a.Kp then (s, "bad-op") else
@@ -265,12 +280,8 @@ def step (s : S) (line : String) : S × String :=
   else if op == "iscvec" || op == "iexpvec" then
     let sc := parseIList ((arg? ws "sc").getD "-")
     if sc.length ≠ a.Kp then (s, "bad-op") else
-    let p := parseFList ((arg? ws "p").getD "-")
-    let f : Nat → List Int → Option Int := fun x sc =>
-      let scf := sc.map fun (i : Int) => Float32.ofInt i
-      let r := if op == "iscvec" then a.avgScore x scf else a.expectScore x scf p
-      r.map fun v => if a.xIsResidue x then roundI v else 0
-    match Alphabet.scVecLoop f (a.Kp - 3 - a.K) (a.K + 1) sc with
+    let r := if op == "iscvec" then Alphabet.iAvgScVec Float32 a sc else Alphabet.iExpectScVec a sc (parseFList ((arg? ws "p").getD "-"))
+    match r with
     | some r => (s, "ok " ++ ",".intercalate (r.map toString)) | none => (s, "fault")
   else if op == "guess" then
     let ct := parseIList ((arg? ws "ct").getD "-")
@@ -304,7 +315,7 @@ def step (s : S) (line : String) : S × String :=
   else if op == "validateseq" then
     let txt := argBytes ws "hex"
     let (st, msg) := Alphabet.validateSeqMsg (if (argNat? ws "noabc").getD 0 ≠ 0 then none else some a) txt
-    (s, s!"{st.name} {hx msg}")
+    (s, s!"{st.name} {hx (cstr msg)}")
   else if op == "match" then
     let p := (arg? ws "p").map parseDList
     match a.matchProb ((argNat? ws "x").getD 0) ((argNat? ws "y").getD 0) p with
@@ -318,6 +329,20 @@ def step (s : S) (line : String) : S × String :=
     if cstr txt ≠ txt then (s, "bad-op") else
     let (st, t) := Sq.revcompText txt
     (s, s!"{st.name} seq={hx t}")
+  else if op == "sqccount" then
+    let txt := argBytes ws "hex"
+    if cstr txt ≠ txt then (s, "bad-op") else
+    let f0 : List Float32 := List.replicate a.K 0.0
+    match Sq.countResiduesText a txt ((argInt? ws "start").getD 0) ((argInt? ws "L").getD txt.length) f0 with
+    | some none => (s, "fault")
+    | some (some f) => (s, s!"ok f={",".intercalate (f.map fnum)}")
+    | none => (s, s!"erange f={",".intercalate (f0.map fnum)}")
+  else if op == "dsqdup" then
+    let Lk := if arg? ws "L" == some "unknown" then none else some s.L
+    match Alphabet.dsqdup s.d Lk with
+    | none => (s, "fault")
+    | some none => (s, "ok dup=null")
+    | some (some c) => (s, s!"ok dup={hx c}")
   else (s, "bad-op")
 
 def main : IO Unit := runDriver ({} : S) step
